@@ -182,6 +182,11 @@ func (m *Monitor) doRespConnBind(r *mReq, msg *stun.Message, ok bool, code int, 
 	}
 	t.Bound = true
 	t.BoundAt = I
+	if m.srvWriteFailed[r.Client] {
+		// the success response never left (injected write error on the data connection): the
+		// client does not know it is bound and the server has given up on the pipe
+		t.Uncertain = true
+	}
 	// from now on this client connection is a byte pipe, not a STUN stream
 	for c, cs := range m.tcpCtl {
 		if cs.client == r.Client {
@@ -216,7 +221,7 @@ func (m *Monitor) relayPeerConnClosed(c *TCPConn) {
 	for _, as := range m.M.Allocs {
 		for _, a := range as {
 			for cid, t := range a.TCPs {
-				if t.Conn != c || !t.Bound {
+				if t.Conn != c || !t.Bound || t.Uncertain {
 					continue
 				}
 				if _, ended := m.ctlEnded[a.Client]; ended {
@@ -276,7 +281,7 @@ func (m *Monitor) tcpIdle(now int64) {
 	for _, as := range m.M.Allocs {
 		for _, a := range as {
 			for cid, t := range a.TCPs {
-				if t.Conn != nil && t.Closed && t.Bound && !m.halfOpenReported[cid] && now > t.ClosedAt+5e9 && len(m.K.StallIntervals()) == 0 {
+				if t.Conn != nil && t.Closed && t.Bound && !t.Uncertain && !m.halfOpenReported[cid] && now > t.ClosedAt+5e9 && len(m.K.StallIntervals()) == 0 {
 					// a bound pipe ends as a whole: the peer side has been closed for 5 s, the
 					// client's data connection must not linger (it would swallow what is written to it)
 					if d := m.dataConns[cid]; d != nil {
